@@ -53,7 +53,12 @@ type Ctx struct {
 	Cases []string
 	// Evals overrides the number of evaluations this run stands for.
 	Evals int64
+	atEnd []func()
 }
+
+// AtEnd registers a function to run after the run's teardown (all tasks
+// unwound).
+func (c *Ctx) AtEnd(f func()) { c.atEnd = append(c.atEnd, f) }
 
 // Case records one evaluated case of this run.
 func (c *Ctx) Case(id string) {
@@ -174,6 +179,9 @@ func RunOnce(t *testing.T, env *Env, p *Prop, seed, run uint64, vals []uint32, r
 			s.MaxSteps += 100000
 			s.Run(nil, time.Hour)
 			s.Exhausted = exh
+			for _, f := range ctx.atEnd {
+				f()
+			}
 			if lt := s.LiveTasks(); len(lt) > 0 {
 				res.Leak = "tasks still alive after teardown: " + strings.Join(lt, ",")
 			}
@@ -309,6 +317,7 @@ func Shrink(try func(vals []uint32) *Result, orig *Result, maxTries int) (*Resul
 type ReplayFile struct {
 	Property  string                 `json:"property"`
 	Variant   string                 `json:"variant"`
+	Engine    string                 `json:"engine"`
 	Seed      uint64                 `json:"seed"`
 	Run       uint64                 `json:"run"`
 	Tier      string                 `json:"tier"`
@@ -567,7 +576,7 @@ func writeReplay(t *testing.T, env *Env, p *Prop, r *Result, dir, tier string, s
 		// shrinking produced something unstable; fall back to the original
 		final = RunOnce(t, env, p, r.Seed, r.Run, r.Tape, true, true, tier)
 	}
-	rf := &ReplayFile{Property: p.ID, Variant: p.Variant, Seed: r.Seed, Run: r.Run, Tier: tier, Config: final.Info, Tape: trimZeros(final.Tape),
+	rf := &ReplayFile{Property: p.ID, Variant: p.Variant, Engine: os.Getenv("VERIF_ENGINE"), Seed: r.Seed, Run: r.Run, Tier: tier, Config: final.Info, Tape: trimZeros(final.Tape),
 		OrigLen: len(r.Tape), Shrinks: tries, LogHash: final.LogHash, Trace: final.Trace, GoVersion: runtime.Version()}
 	if len(final.Violations) > 0 {
 		rf.Violation = final.Violations[0]
